@@ -21,8 +21,9 @@ import (
 	"sync/atomic"
 )
 
-// MaxTasks bounds the number of caller tasks in one simulated run.
-const MaxTasks = 16
+// MaxTasks bounds the number of tasks in one simulated run: the caller tasks of the
+// scenario (at most 14) plus the goroutines the library itself starts (go.go).
+const MaxTasks = 48
 
 // Scheduling policies.
 const (
@@ -35,6 +36,9 @@ const (
 	PolPark            // decision points only at statements that mention a package-level variable (and exit yields); long stalls
 	PolReplay          // apply a recorded decision list
 	NumPolicies = PolReplay
+	// PolSolo is the policy of a solo reference pass when the library starts goroutines of
+	// its own (solo.go): the caller runs until it blocks or returns, no preemption, no PRNG.
+	PolSolo = PolReplay + 1
 )
 
 var PolicyNames = [...]string{"uniform", "pct", "single", "rr", "targeted", "sync", "park", "replay"}
@@ -51,6 +55,7 @@ const (
 	DSwitch = 0 // hand the baton to Task at Step
 	DGC     = 1 // run a garbage collection at Step
 	DClock  = 2 // the simulated clock jumps forward by V nanoseconds at Step
+	DSelect = 3 // the select entered at Step by Task tries its case number V first (chan.go)
 )
 
 // Decision is one recorded scheduling/fault decision. A list of them is an
@@ -103,9 +108,12 @@ type Stats struct {
 	Overrun     bool   // some operation exceeded its step bound (L2)
 	OverrunTask int
 	OverrunStep uint64
-	Capped      bool // global step cap reached
-	Deadlock    bool // every unfinished task is waiting for a lock (L1)
-	DecOverflow bool // decision list was truncated (run cannot be replayed from the list, only from the seed)
+	Capped      bool   // global step cap reached
+	Deadlock    bool   // every unfinished task is waiting for a lock (L1)
+	DecOverflow bool   // decision list was truncated (run cannot be replayed from the list, only from the seed)
+	LibGo       uint64 // goroutines started by the library itself and run as simulated tasks (go.go)
+	ChanOps     uint64 // channel operations of the library completed inside the simulated run (chan.go)
+	ChanWaits   uint64 // ... that had to wait first (cooperatively: the baton went to another task)
 }
 
 // Abort is the panic value Y uses to unwind an operation that overran.
@@ -135,6 +143,9 @@ func raise(why string) {
 //
 //go:norace
 func AbortRaised() bool {
+	if soloOn {
+		return abortRaised[0] || soloAbortRaised
+	}
 	if active {
 		return abortRaised[cur]
 	}
@@ -177,6 +188,11 @@ var (
 
 	allDone  bool
 	aborting bool
+
+	// goroutines the library starts itself (go.go)
+	nScen          int // caller tasks of the scenario: slots 0..nScen-1; library goroutines take the slots above
+	isChild        [MaxTasks]bool
+	orphanDeadline uint64 // != 0: every caller task has finished; library goroutines may run until this step
 
 	// StepHook, when non-nil and Config.HookEvery > 0, is called from Y on the
 	// current task's goroutine. It must not call instrumented code unless it
@@ -225,6 +241,13 @@ func Quiet(on bool) {
 	if on {
 		quiet++
 	} else {
+		if quiet == 1 && liveReal.Load() != 0 {
+			// library code called under Quiet started goroutines of its own (plain ones): they
+			// must be gone before yields mean something again
+			if !waitReal() && active {
+				aborting = true
+			}
+		}
 		quiet--
 	}
 }
@@ -240,6 +263,10 @@ var (
 
 //go:norace
 func CountBegin(cap uint64) {
+	if OwnsGo && Instrumented && !free {
+		soloBegin(cap)
+		return
+	}
 	counting = true
 	countPaused = false
 	count = 0
@@ -247,13 +274,27 @@ func CountBegin(cap uint64) {
 	soloAbortRaised = false
 }
 
+func CountEnd() uint64 {
+	if soloIsOn() {
+		return soloEnd()
+	}
+	return countEnd()
+}
+
 //go:norace
-func CountEnd() uint64 { counting = false; return count }
+func countEnd() uint64 { counting = false; return count }
 
 // CountPause suspends counting (result canonicalisation is not part of an operation).
-//
+func CountPause(on bool) {
+	if soloIsOn() {
+		soloPause(on)
+		return
+	}
+	countPause(on)
+}
+
 //go:norace
-func CountPause(on bool) { countPaused = on }
+func countPause(on bool) { countPaused = on }
 
 // Y is the yield the instrumenter inserts before every library statement.
 //
@@ -270,7 +311,7 @@ func Y(site uint32) {
 		}
 		return
 	}
-	if quiet != 0 {
+	if quiet != 0 || soloPaused {
 		return
 	}
 	me := cur
@@ -289,6 +330,9 @@ func Y(site uint32) {
 		aborting = true
 		raise("global step cap")
 	}
+	if orphanDeadline != 0 && step > orphanDeadline {
+		orphaned()
+	}
 	if inOp[me] {
 		opStep[me]++
 		if opStep[me] > opLimit[me] {
@@ -305,6 +349,9 @@ func Y(site uint32) {
 		quiet++
 		StepHook()
 		quiet--
+	}
+	if cfg.Policy == PolSolo {
+		return
 	}
 	if cfg.Policy == PolReplay {
 		replayStep(site)
@@ -360,7 +407,7 @@ func Y(site uint32) {
 //
 //go:norace
 func YieldLock() {
-	if !active || quiet != 0 {
+	if !active || quiet != 0 || soloPaused {
 		runtime.Gosched()
 		return
 	}
@@ -375,6 +422,9 @@ func YieldLock() {
 		aborting = true
 		panic(Abort{"global step cap"})
 	}
+	if orphanDeadline != 0 && step > orphanDeadline {
+		orphaned()
+	}
 	lockWait[me] = true
 	waitEpoch[me] = lockEpoch
 	// deadlock: every unfinished task failed to get what it waits for since the
@@ -386,9 +436,22 @@ func YieldLock() {
 		}
 	}
 	if dead {
-		stats.Deadlock = true
+		callers := false
+		for i := 0; i < nScen; i++ {
+			if status[i] == stRunnable && !(soloOn && soloJoining) {
+				callers = true
+			}
+		}
 		aborting = true
 		lockWait[me] = false
+		if !callers {
+			// only goroutines started by the library are left and none of them can go on: they were
+			// left behind blocked (a leak, not a deadlock of callers). A production process just
+			// carries them along; the simulator cannot, run after run.
+			poison("goroutines started by the library were left behind blocked after every call had returned")
+			panic(Abort{"library goroutines left behind blocked"})
+		}
+		stats.Deadlock = true
 		panic(Abort{"deadlock: every unfinished task waits for a lock"})
 	}
 	if cfg.Policy == PolReplay {
@@ -409,7 +472,7 @@ func YieldLock() {
 //
 //go:norace
 func SyncPoint() {
-	if !active || quiet != 0 {
+	if !active || quiet != 0 || soloPaused {
 		return
 	}
 	me := cur
@@ -853,6 +916,7 @@ func OpSteps() uint64 { return opStep[cur] }
 // be started later through Spawn. It returns when every started task has ended.
 // fn(task) is the task body; it runs on its own goroutine.
 func Run(c Config, r *Rand, n int, initial []int, fn func(task int)) (Stats, []Decision) {
+	waitReal()
 	setup(c, r, n, fn)
 	for _, t := range initial {
 		markRunnable(t)
@@ -869,6 +933,11 @@ func Run(c Config, r *Rand, n int, initial []int, fn func(task int)) (Stats, []D
 			<-ch // a real join: the edge a production program has when it collects results
 		}
 	}
+	for i := n; i < numTasks(); i++ {
+		if ch := getDone(i); ch != nil {
+			<-ch // library goroutines: the harness only waits until they are gone (the caller of a library has no such edge, and this one comes after every result was collected)
+		}
+	}
 	return finish()
 }
 
@@ -877,6 +946,8 @@ func setup(c Config, r *Rand, n int, fn func(int)) {
 	cfg = c
 	rng = r
 	nTasks = n
+	nScen = n
+	orphanDeadline = 0
 	body = fn
 	step = 0
 	stats = Stats{}
@@ -898,6 +969,8 @@ func setup(c Config, r *Rand, n int, fn func(int)) {
 		waitEpoch[i] = 0
 		done[i] = nil
 		lastSite[i] = 0
+		isChild[i] = false
+		selLive[i] = false
 	}
 	if cfg.StepCap == 0 {
 		cfg.StepCap = 5_000_000
@@ -1008,8 +1081,9 @@ func enterTask(t int) {
 
 // exitTask runs deferred on the task's goroutine: also after runtime.Goexit.
 func exitTask(t int) {
+	ch := getDone(t) // before the hand-off: the slot of a library goroutine may be reused as soon as it is marked finished
 	handOff(t)
-	close(getDone(t))
+	close(ch)
 }
 
 //go:norace
@@ -1025,6 +1099,18 @@ func handOff(t int) {
 	if n == 0 {
 		allDone = true
 		return
+	}
+	if orphanDeadline == 0 && !isChild[t] {
+		callers := false
+		for i := 0; i < nScen; i++ {
+			if status[i] == stRunnable {
+				callers = true
+			}
+		}
+		if !callers {
+			// only goroutines started by the library are left: they get a grace period to finish
+			orphanDeadline = step + orphanGrace
+		}
 	}
 	var nxt int32
 	switch {
@@ -1043,7 +1129,7 @@ func handOff(t int) {
 		if nxt < 0 {
 			nxt = cand[0]
 		}
-	case aborting:
+	case aborting, cfg.Policy == PolSolo:
 		nxt = cand[0]
 	case cfg.Policy == PolPCT:
 		nxt = pctBest()
